@@ -30,13 +30,13 @@ Actions == <<"clone", "detach", "to_dtype", "type", "double", "float", "cpu", "r
 DepthOf(c) == IF c \in G_LeafClasses THEN 0 ELSE 1
 ModeOf(c) == IF c \in G_PsdOnly THEN 1 ELSE 0
 
-\* kinds of the tensor leaves in construction order: "f" floating, "i" integer index data, "b" boolean mask
+\* kinds of the tensors in the operator's flattened representation(): "f" floating, "i" integer index data, "b" boolean mask
 RECURSIVE LeafKinds(_)
 LeafKinds(t) ==
   LET own == CASE t.cls = "Interp" -> <<"i", "f", "i", "f">>
-               [] t.cls = "InterpLeft" -> <<"i", "f">>
+               [] t.cls = "InterpLeft" -> <<"i", "f", "i", "f">>      \* the constructor materialises the default (identity) right side
                [] t.cls = "Masked" -> <<"b", "b">>
-               [] t.cls = "Perm" -> <<"i">>
+               [] t.cls = "Perm" -> <<"i", "i">>                      \* the permutation and its inverse
                [] OTHER -> [i \in 1..Len(t.ts) |-> "f"]
       RECURSIVE subs(_)
       subs(k) == IF k > Len(t.ops) THEN <<>> ELSE LeafKinds(t.ops[k]) \o subs(k + 1)
